@@ -1,3 +1,196 @@
-(* C20 property theorems (statements only). *)
-From Coq Require Import ZArith List Bool.
-From QE Require Import Base.Num C20.Model.
+(* C20 property theorems: statements only, each closed by `exact`, with Print Assumptions. *)
+From Coq Require Import ZArith QArith List Bool Lia Lqa.
+From QE Require Import Base.Num C20.Model C20.Proofs C20.Proofs2.
+Import ListNotations.
+Open Scope Z_scope.
+
+(* ---- BRD / KMR / SamplingBRD: along EVERY history (any length, any payoff matrix with n rows, any tolerance,
+   any sequence of revising players in [0,N), any mutation uniforms / random choices in [0,n) / sampled actions)
+   every visited action distribution has n entries, all non-negative, summing to N, and consecutive
+   distributions differ by moving one player away from an action that somebody plays. *)
+Theorem C20_brd_inv : forall A tol N n s0 ps h f,
+  zlen A = n -> valid_dist N n s0 -> Forall (fun p => 0 <= p < N) ps ->
+  brd_series A tol s0 ps = Some (h, f) ->
+  length h = length ps /\ nth_error (h ++ [f]) 0 = Some s0 /\
+  Forall (fun d => zlen d = n /\ Forall (fun x => 0 <= x) d /\ zsum d = N) (h ++ [f]) /\
+  forall i s s', nth_error (h ++ [f]) i = Some s -> nth_error (h ++ [f]) (S i) = Some s' ->
+    exists a b, 0 <= a < n /\ 0 <= b < n /\ 0 < zget s a /\ s' = add_at (add_at s a (-1)) b 1.
+Proof. exact brd_inv. Qed.
+Print Assumptions C20_brd_inv.
+
+Theorem C20_kmr_inv : forall A tol eps N n s0 ds h f,
+  zlen A = n -> valid_dist N n s0 ->
+  Forall (fun d : Z * Q * Z => let '(p, u, r) := d in 0 <= p < N /\ 0 <= r < n) ds ->
+  kmr_series A tol eps s0 ds = Some (h, f) ->
+  length h = length ds /\ nth_error (h ++ [f]) 0 = Some s0 /\
+  Forall (fun d => zlen d = n /\ Forall (fun x => 0 <= x) d /\ zsum d = N) (h ++ [f]) /\
+  forall i s s', nth_error (h ++ [f]) i = Some s -> nth_error (h ++ [f]) (S i) = Some s' ->
+    exists a b, 0 <= a < n /\ 0 <= b < n /\ 0 < zget s a /\ s' = add_at (add_at s a (-1)) b 1.
+Proof. exact kmr_inv. Qed.
+Print Assumptions C20_kmr_inv.
+
+Theorem C20_sampling_inv : forall A tol N n s0 ds h f,
+  zlen A = n -> valid_dist N n s0 -> Forall (fun d : Z * list Z => 0 <= fst d < N) ds ->
+  sampling_series A tol s0 ds = Some (h, f) ->
+  length h = length ds /\ nth_error (h ++ [f]) 0 = Some s0 /\
+  Forall (fun d => zlen d = n /\ Forall (fun x => 0 <= x) d /\ zsum d = N) (h ++ [f]) /\
+  forall i s s', nth_error (h ++ [f]) i = Some s -> nth_error (h ++ [f]) (S i) = Some s' ->
+    exists a b, 0 <= a < n /\ 0 <= b < n /\ 0 < zget s a /\ s' = add_at (add_at s a (-1)) b 1.
+Proof. exact sampling_inv. Qed.
+Print Assumptions C20_sampling_inv.
+
+(* no IndexError: with a non-negative tolerance and at least one action a BRD step always exists *)
+Theorem C20_brd_step_total : forall A tol s p, 0 < zlen A -> (0 <= tol)%Q -> exists s', brd_step A tol s p = Some s'.
+Proof. exact brd_step_total. Qed.
+Print Assumptions C20_brd_step_total.
+
+(* ---- the step is the one the definition prescribes.
+   (a) the revising player p is the p-th player when players are sorted by action:
+       searchsorted(cumsum(dist), p, 'right') = a  with  sum(dist[:a]) <= p < sum(dist[:a+1]), dist[a] > 0 *)
+Theorem C20_revising_action_spec : forall d p N n,
+  valid_dist N n d -> 0 <= p < N ->
+  let a := revising_action d p in
+  0 <= a < n /\ 0 < zget d a /\
+  zsum (firstn (Z.to_nat a) d) <= p < zsum (firstn (S (Z.to_nat a)) d).
+Proof. exact revising_action_spec. Qed.
+Print Assumptions C20_revising_action_spec.
+
+(* (b) best_response with 'smallest' tie breaking, every Num: the FIRST index whose payoff reaches max - tol *)
+Theorem C20_best_response_spec : forall (T : Type) (N : Num T) (pv : list T) tol b,
+  best_response pv tol = Some b ->
+  0 <= b < zlen pv /\
+  (exists x, nth_error pv (Z.to_nat b) = Some x /\ nleb (nsub (vmax pv) tol) x = true) /\
+  (forall j x, (j < Z.to_nat b)%nat -> nth_error pv j = Some x -> nleb (nsub (vmax pv) tol) x = false).
+Proof. intros T N. exact (@best_response_spec T N). Qed.
+Print Assumptions C20_best_response_spec.
+
+(*     and over Q it is a best response up to tol: no action pays more than tol above it *)
+Theorem C20_best_response_optimal : forall (pv : list Q) tol b,
+  best_response pv tol = Some b ->
+  0 <= b < zlen pv /\ exists x, nth_error pv (Z.to_nat b) = Some x /\ forall y, In y pv -> (y - tol <= x)%Q.
+Proof. exact best_response_optimal_Q. Qed.
+Print Assumptions C20_best_response_optimal.
+
+(* (c) LocalInteraction: the loop that assigns actions[i] one revising player after the other equals the
+   simultaneous definition: every revising player best-responds to the OLD profile, the others keep theirs *)
+Theorem C20_localint_play_closed : forall A adj tol actions players acts',
+  localint_play A adj tol actions players = Some acts' ->
+  (forall i, In i players -> 0 <= i < zlen actions) ->
+  zlen acts' = zlen actions /\
+  forall j, 0 <= j < zlen actions ->
+    Some (zget acts' j) =
+      if existsb (Z.eqb j) players
+      then best_response (mat_vec A (neighbour_counts (zlen A) (nth (Z.to_nat j) adj []) actions)) tol
+      else Some (zget actions j).
+Proof. exact localint_play_closed. Qed.
+Print Assumptions C20_localint_play_closed.
+
+(* ---- fictitious play (plain: okp p := p = None; stochastic: any perturbation vectors of the right lengths), exact
+   arithmetic: along every history the beliefs stay probability vectors of the right lengths, the clock advances
+   by one, and each new belief is (1-s) old + s e_br, s the documented step size, br a best response (up to tol) to
+   the OLD beliefs of the opponent *)
+Theorem C20_fp_inv : forall (okp : option (list Q * list Q) -> Prop) A B gain tol n0 n1 x0 x1 t0 perts h f,
+  zlen A = n0 -> zlen B = n1 -> gain_ok gain ->
+  fp_inv_state n0 n1 (x0, x1, t0) -> Forall (fun p => okp p /\ pert_ok n0 n1 p) perts ->
+  fp_series A B gain tol x0 x1 t0 perts = Some (h, f) ->
+  length h = length perts /\ nth_error (h ++ [f]) 0 = Some (x0, x1, t0) /\
+  Forall (fun st : fp_state (T:=Q) => let '(y0, y1, t) := st in
+            zlen y0 = n0 /\ zlen y1 = n1 /\ probvec y0 /\ probvec y1 /\ 0 <= t) (h ++ [f]) /\
+  forall i st st', nth_error (h ++ [f]) i = Some st -> nth_error (h ++ [f]) (S i) = Some st' ->
+    let '(y0, y1, t) := st in
+    let '(y0', y1', t') := st' in
+    t' = t + 1 /\
+    exists pert b0 b1, okp pert /\
+      is_best_response (fst (payoff_vectors A B y0 y1 pert)) tol b0 /\
+      is_best_response (snd (payoff_vectors A B y0 y1 pert)) tol b1 /\
+      best_response (fst (payoff_vectors A B y0 y1 pert)) tol = Some b0 /\
+      best_response (snd (payoff_vectors A B y0 y1 pert)) tol = Some b1 /\
+      update_rel y0 y0' b0 (step_size gain t) /\ update_rel y1 y1' b1 (step_size gain t).
+Proof. exact fp_inv. Qed.
+Print Assumptions C20_fp_inv.
+
+(* the documented step sizes: 1/(t+2) without gain, the gain otherwise; both in [0,1] *)
+Theorem C20_step_size : forall t, 0 <= t ->
+  (step_size (T:=Q) None t == 1 / inject_Z (t + 2))%Q /\
+  forall gain, gain_ok gain -> (0 <= step_size gain t /\ step_size gain t <= 1)%Q.
+Proof. intros t Ht. split; [exact (step_size_default t Ht)|]. intros gain Hg. exact (step_size_range gain t Hg Ht). Qed.
+Print Assumptions C20_step_size.
+
+(* ---- LocalInteraction: along every history (simultaneous and asynchronous periods in any order) every
+   profile has N entries, all inside the action set *)
+Theorem C20_localint_range : forall A adj tol n N actions ds h f,
+  zlen A = n -> zlen adj = N -> acts_ok n N actions ->
+  localint_series A adj tol actions ds = Some (h, f) ->
+  length h = length ds /\ nth_error (h ++ [f]) 0 = Some actions /\
+  Forall (fun acts => zlen acts = N /\ Forall (fun a => 0 <= a < n) acts) (h ++ [f]).
+Proof. exact localint_range. Qed.
+Print Assumptions C20_localint_range.
+
+(* ---- LogitDynamics, ANY arithmetic (in particular binary64): if every table entry is a non-empty cdf of the
+   player's length whose total c satisfies  not (c <= u*c)  for every uniform 0 <= u < 1 (hypothesis; a float
+   fact for binary64), then along every history every action stays inside its action set *)
+Theorem C20_logit_range : forall (T : Type) (N : Num T) (ns : list Z) (cdfs : list (list (list Z * list T))),
+  (forall i tbl key cdf, nth_error cdfs i = Some tbl -> lookup tbl key = Some cdf ->
+     cdf <> [] /\ Some (zlen cdf) = nth_error ns i /\
+     forall u, unitl u -> nleb (last cdf nzero) (nmul u (last cdf nzero)) = false) ->
+  forall acts ds h f,
+    Forall2 (fun a n => 0 <= a < n) acts ns -> Forall (fun d => unitl (snd d)) ds ->
+    logit_series cdfs acts ds = Some (h, f) ->
+    length h = length ds /\ nth_error (h ++ [f]) 0 = Some acts /\
+    Forall (fun acts' => Forall2 (fun a n => 0 <= a < n) acts' ns) (h ++ [f]).
+Proof. intros T N. exact (@logit_range T N). Qed.
+Print Assumptions C20_logit_range.
+
+(* ---- the hypotheses are satisfiable by concrete non-trivial objects *)
+Definition A_ex : list (list Q) := [[4; 0; 1]; [3; 3; 1]; [0; 2; 2]]%Q.
+Example ex_brd : valid_dist 5 3 [2; 0; 3] /\ zlen A_ex = 3 /\
+  brd_series A_ex (1 # 100000000) [2; 0; 3] [0; 4; 2; 1] = Some ([[2; 0; 3]; [1; 1; 3]; [1; 2; 2]; [1; 3; 1]], [1; 3; 1]).
+Proof.
+  split; [|split].
+  - split; [reflexivity|]. split; [repeat constructor; lia|reflexivity].
+  - reflexivity.
+  - vm_compute. reflexivity.
+Qed.
+
+Example ex_fp :
+  gain_ok None /\ fp_inv_state 2 2 ([1; 0]%Q, [1#2; 1#2]%Q, 0) /\
+  option_map (fun r => snd r) (fp_series [[1; 0]; [0; 1]]%Q [[0; 1]; [1; 0]]%Q None (1 # 100000000) [1; 0]%Q [1#2; 1#2]%Q 0 [None; None])
+    = Some ([1#3; 2#3]%Q, [1#2; 1#2]%Q, 2).
+Proof.
+  split; [exact I|]. split.
+  - unfold fp_inv_state, probvec. repeat split; try reflexivity; try lia; repeat constructor; try (vm_compute; discriminate).
+  - vm_compute. reflexivity.
+Qed.
+
+(* the logit hypothesis holds over Q whenever the totals are positive *)
+Lemma logit_scaling_Q : forall c u : Q, (0 < c)%Q -> unitl u -> nleb c (nmul u c) = false.
+Proof.
+  intros c u Hc [H0 H1]. cbn [nleb nmul NumQ nltb nzero none_] in *.
+  apply Qle_bool_iff in H0. apply Qltb_lt in H1.
+  destruct (Qle_bool c (Qmulr u c)) eqn:E; [|reflexivity].
+  apply Qle_bool_iff in E. rewrite Qmulr_eq in E. nra.
+Qed.
+
+Definition cdfs_ex : list (list (list Z * list Q)) :=
+  [[([0], [1; 3]%Q); ([1], [2; 3]%Q)]; [([0], [1; 2]%Q); ([1], [1#2; 1]%Q)]].
+Example ex_logit_tables : forall i tbl key cdf,
+  nth_error cdfs_ex i = Some tbl -> lookup tbl key = Some cdf ->
+  cdf <> [] /\ Some (zlen cdf) = nth_error [2; 2] i /\
+  forall u, unitl u -> nleb (last cdf nzero) (nmul u (last cdf nzero)) = false.
+Proof.
+  assert (Hl : forall (tbl : list (list Z * list Q)) key cdf, lookup tbl key = Some cdf -> In cdf (map snd tbl)).
+  { induction tbl as [|[k v] r IH]; intros key cdf Hh; simpl in Hh; [discriminate|].
+    destruct (profile_eqb k key); [injection Hh as <-; left; reflexivity|right; eapply IH; eauto]. }
+  intros i tbl key cdf Ht Hk. apply Hl in Hk.
+  destruct i as [|[|i]]; simpl in Ht; try (destruct i; discriminate); injection Ht as <-; simpl in Hk;
+    destruct Hk as [<-|[<-|[]]]; (split; [discriminate|]; split; [reflexivity|]; intros u Hu; apply logit_scaling_Q; [reflexivity|exact Hu]).
+Qed.
+Example ex_logit_run :
+  logit_series cdfs_ex [0; 1] [(0, 1#2); (1, 0); (0, 9#10)]%Q = Some ([[0; 1]; [0; 1]; [0; 0]], [1; 0]).
+Proof. vm_compute. reflexivity. Qed.
+
+Example ex_localint :
+  acts_ok 2 3 [0; 1; 1] /\
+  localint_series [[2; 0]; [0; 1]]%Q [[0; 1; 1]; [1; 0; 0]; [2; 0; 0]]%Q 0 [0; 1; 1] [None; Some 1; None]
+    = Some ([[0; 1; 1]; [1; 0; 0]; [1; 1; 0]], [1; 1; 1]).
+Proof. split; [split; [reflexivity|repeat constructor; lia]|vm_compute; reflexivity]. Qed.
